@@ -5,6 +5,7 @@ FUNCTIONS = ['socket.Socket.close', 'async_socket.AsyncSocket.close', 'server.Se
              'base_server.BaseServer._bad_request', 'base_server.BaseServer._method_not_found',
              'base_server.BaseServer._unauthorized', 'base_server.BaseServer._ok',
              'server.Server._handle_connect']
+FUNCTIONS += ['server.Server.handle_request']
 
 LEVEL_TEXT = 'response constructors produce one of the four status lines with (str,str) headers and a bytes body; send()/disconnect() never raise for any session state; blocking calls carry time credits: queue.join() is bounded only if nothing is unfinished (obligation bounded-block)'
 LEVEL_NOTE = 'handle_request itself (start_response exactly once) is verified in the thorough tier; ASGI event order not yet under contract'
